@@ -108,7 +108,7 @@ func (state *RuntimeState) VIPAuthHandler(w http.ResponseWriter, r *http.Request
 	// OTP check was  successful
 	logger.Debugf(1, "Successful vipOTP auth for user: %s", authData.Username)
 	eventNotifier.PublishVIPAuthEvent(eventmon.VIPAuthTypeOTP, authData.Username)
-	_, err = state.updateAuthCookieAuthlevel(w, r,
+	_, err = state.updateAuthCookieAuthlevel(w, r, authData.Username,
 		authData.AuthType|AuthTypeSymantecVIP)
 	if err != nil {
 		logger.Printf("Auth Cookie NOT found ? %s", err)
@@ -266,7 +266,7 @@ func (state *RuntimeState) VIPPollCheckHandler(w http.ResponseWriter, r *http.Re
 	}
 
 	// VIP Push check was  successful
-	_, err = state.updateAuthCookieAuthlevel(w, r,
+	_, err = state.updateAuthCookieAuthlevel(w, r, authData.Username,
 		authData.AuthType|AuthTypeSymantecVIP)
 	if err != nil {
 		logger.Printf("VIPPollCheckHandler:  Failure to update AuthCookie %s", err)
